@@ -62,9 +62,11 @@ def scheduleOnce (s : Sched) (body : Body) (delay : Option Nat) : Sched × TaskI
 
 /-- `scheduler.schedule(RepeatTask::new(dur, ..), delay)`: the period timer is
     armed by `RepeatTask::new`, i.e. before the task is even spawned. -/
-def scheduleRepeat (s : Sched) (body : Body) (dur : Nat) (delay : Option Nat) : Sched × TaskId :=
+def scheduleRepeat (s : Sched) (body : Body) (dur : Nat) (delay : Option Nat)
+    (first : Nat := dur) : Sched × TaskId :=
   let id := s.tasks.length
-  let (s1, tm) := s.newTimer dur id
+  -- `RepeatTask::with_first_delay(first, dur, ..)`; `RepeatTask::new(dur, ..)` has first = dur
+  let (s1, tm) := s.newTimer first id
   ({ s1 with tasks := s1.tasks ++ [{ body := body, outerDelay := delay, rep := some (tm, dur, 0) }] }, id)
 
 def setTask (s : Sched) (k : TaskId) (t : Task) : Sched :=
